@@ -664,7 +664,7 @@ func runC16Maps(c *Ctx, pols []*iterPolicy, prefix, indent string) *Violation {
 			continue
 		}
 		// the path already holds a longer, older file: the writers must truncate it
-		d.Files["sim/f"] = append(append([]byte("<stale>"), ref.out...), " stale tail {\"k\":1}</stale>"...)
+		d.Set("sim/f", append(append([]byte("<stale>"), ref.out...), " stale tail {\"k\":1}</stale>"...))
 		var err error
 		c.Eval()
 		if v := safely(c, f.name, func() { err = f.f() }); v != nil {
@@ -674,8 +674,8 @@ func runC16Maps(c *Ctx, pols []*iterPolicy, prefix, indent string) *Violation {
 		if err != nil {
 			return &Violation{"C16.d4-file-error/" + f.name, fmt.Sprintf("Maps.%s returned %v", f.name, err)}
 		}
-		if !bytes.Equal(d.Files["sim/f"], ref.out) {
-			return &Violation{"C16.d4-file/" + f.name, fmt.Sprintf("Maps.%s left %q on disk but Maps.%s returns %q", f.name, clip(string(d.Files["sim/f"]), 300), f.ref, clip(string(ref.out), 300))}
+		if onDisk, _ := d.Get("sim/f"); !bytes.Equal(onDisk, ref.out) {
+			return &Violation{"C16.d4-file/" + f.name, fmt.Sprintf("Maps.%s left %q on disk but Maps.%s returns %q", f.name, clip(string(onDisk), 300), f.ref, clip(string(ref.out), 300))}
 		}
 	}
 	if c.C["map_orders_imposed"] > 0 {
